@@ -350,10 +350,13 @@ PROPS["C16"] = {
 # ---------------------------------------------------------------- C17
 PROPS["C17"] = {
     "programs": {"quick": [P("test", "VerifHamtConcurrentReaders", must_reach=("end", "conflicting-accesses-checked")),
-                           P("test", "VerifFileConcurrentReaders")]},
+                           P("test", "VerifFileConcurrentReaders"),
+                           P("test", "VerifHamtConcurrentReadersJoint", must_reach=("end", "conflicting-accesses-checked")),
+                           P("test", "VerifFileConcurrentReadersJoint", must_reach=("end", "conflicting-accesses-checked"))]},
     "native_race_test": ("test", "TestVerifC17Race"),
-    "bounds": {"quick": "2 threads; every pair of {lookup first entry, lookup last entry, Length, full iteration} on 3 hand-built HAMT shapes, cold and pre-warmed cache; two readers of one multi-block file node (2..4 chunks); every interleaving of the recorded accesses to the node's internal cells (8-bit symbolic clocks, mutex and sync.Once semantics as constraints); results equal to the solo results in both orders"},
-    "assumptions": ["each thread's access trace is recorded from its solo execution on the shared node's initial state (cold or warmed) by the engine's shared-cell tracer; a race is a schedule, found by z3, in which two conflicting accesses are adjacent; races are confirmed natively by running the same operations under the Go race detector (a schedule cannot be imposed natively)",
+    "bounds": {"quick": "2 threads; every pair of {lookup first entry, lookup last entry, Length, full iteration} on 3 hand-built HAMT shapes, cold and pre-warmed cache; two readers of one multi-block file node (2..4 chunks); every interleaving of the recorded accesses to the node's internal cells (one symbolic 8-bit position per event of thread 1 = number of thread-2 events before it; mutex and sync.Once semantics as constraints); results equal to the solo results in both orders. Joint programs: the two operations recorded one after the other on ONE node with deep tracing (objects published into the node are traced under per-object names), every schedule that preserves each read's writer; HAMT shapes x 4x4 operation pairs, file with two interior levels (3..5 chunks, width 2), each reader reading the whole file then seeking to the end"},
+    "assumptions": ["joint programs: predicted schedules are restricted to those in which every read sees the same writer as in the recorded run (so the recorded traces remain the threads' real executions); recorded orders A;B only (B;A is the same pair of operations for the file program and is a separate path for the HAMT program, which explores every ordered pair)",
+                    "each thread's access trace is recorded from its solo execution on the shared node's initial state (cold or warmed) by the engine's shared-cell tracer; a race is a schedule, found by z3, in which two conflicting accesses are adjacent; races are confirmed natively by running the same operations under the Go race detector (a schedule cannot be imposed natively)",
                     "below the granularity of recorded cell accesses the Go memory model is not modelled"],
     "outside": ">= 3 threads; interference-dependent control flow beyond the first conflicting access (argued from lock discipline in DESIGN.md, not explored)",
 }
